@@ -10,13 +10,14 @@ Definition pf_of_Z (z : Z) : float := PrimFloat.of_uint63 (Uint63.of_Z z).      
 Definition pf_cst (m e : Z) : float :=
   match m with Zpos p => SF2Prim (S754_finite false p e) | _ => PrimFloat.zero end.
 
-(** truncation toward zero of a finite float, as an integer *)
+(** truncation toward zero of a finite NON-NEGATIVE float, as an integer:
+    x = m * 2^e with m in [0.5, 1) (frshiftexp); normfr_mantissa m = m * 2^53 *)
 Definition pf_trunc (x : float) : Z :=
-  match Prim2SF x with
-  | S754_finite s m e =>
-      let v := if 0 <=? e then Zpos m * 2 ^ e else Zpos m / 2 ^ (- e) in if s then - v else v
-  | _ => 0
-  end.
+  let '(m, e) := PrimFloat.frshiftexp x in
+  let ez := Uint63.to_Z e - FloatOps.shift in
+  if ez <=? 0 then 0
+  else if ez <=? 53 then Uint63.to_Z (Uint63.lsr (PrimFloat.normfr_mantissa m) (Uint63.of_Z (53 - ez)))
+  else Uint63.to_Z (PrimFloat.normfr_mantissa m) * 2 ^ (ez - 53).
 
 (** math.Floor / math.Round for 0 <= x < 2^53 *)
 Definition pf_floor (x : float) : float := pf_of_Z (pf_trunc x).
